@@ -104,10 +104,17 @@ Proof. exact join_once. Qed.
 Theorem C14_join_table_once_count : forall a b ja jb, d_class a <> d_class b -> mirrored a b ja jb ->
   (List.length (filter (creates_link a) [ja]) + List.length (filter (creates_link b) [jb]) = 1)%nat.
 Proof. exact join_once_count. Qed.
-(* a join declared only on the class whose name sorts last is created by nobody *)
-Theorem C14_join_one_sided_refuted : forall a b jb, one_sided a b jb ->
-  joins_to_create a = [] /\ joins_to_create b = [].
-Proof. exact join_one_sided_refuted. Qed.
+(* a relation declared on one class only (no creating RelatedJoin of the other class names the
+   same intermediate table): the declaring side creates the link table, whatever the class
+   names, and no join of the other class does -- exactly one creation *)
+Theorem C14_join_one_sided : forall a b jb, one_sided a b jb ->
+  creates_link b jb = true
+  /\ forall ja, In ja (joins_to_create a) -> inter_table a ja <> inter_table b jb.
+Proof. exact join_one_sided. Qed.
+Theorem C14_join_one_sided_count : forall a b jb, one_sided a b jb ->
+  (List.length (filter (fun j => str_eqb (inter_table a j) (inter_table b jb)) (joins_to_create a))
+   + List.length (filter (creates_link b) [jb]) = 1)%nat.
+Proof. exact join_one_sided_count. Qed.
 
 (* ================================================================= 4. names *)
 Theorem C14_style_roundtrip : forall s, style_dom s = true -> underToMixed (mixedToUnder s) = s.
@@ -123,36 +130,31 @@ Theorem C14_idempotent_drop : forall dc db,
   drop_table_op dc true (fst (drop_table_op dc true db)) = (fst (drop_table_op dc true db), false).
 Proof. exact drop_idem. Qed.
 
-(* any sequence of addColumn/delColumn(changeSchema=True) the engine accepts (op_ok), from a
-   state where class and table are in step: no statement fails, class columns = table columns
-   afterwards, and every column that stays throughout keeps its cells *)
-Theorem C14_evolution_inv : forall ops s t, evo_wf s -> forallb op_ok ops = true -> the_table s = Some t ->
-  snd (evo_run s ops) = false
-  /\ evo_wf (fst (evo_run s ops))
+(* ANY sequence of addColumn/delColumn(changeSchema=True) -- ops the engine refuses included --
+   from a state where class and table are in step: class columns = table columns afterwards and
+   every column that stays throughout keeps its cells; no statement fails if the engine accepts
+   every addColumn whatever the table holds and every delColumn names a column of the class (ops_ok) *)
+Theorem C14_evolution_inv : forall ops s t, evo_wf s -> the_table s = Some t ->
+  evo_wf (fst (evo_run s ops))
+  /\ (ops_ok s ops = true -> snd (evo_run s ops) = false)
   /\ exists t', the_table (fst (evo_run s ops)) = Some t'
        /\ t_cols t' = class_cols (e_decl (fst (evo_run s ops)))
        /\ forall x, In x (t_cols t) -> kept x s ops -> cells_kept t t' x.
 Proof. exact evo_run_ok. Qed.
-(* full strength -- one step, also for ops the engine refuses: class columns = table columns
-   afterwards -- is false: the class is changed first *)
-Definition C14_evolution_full : Prop :=
-  forall s op t, evo_wf s -> the_table s = Some t ->
-  exists t', the_table (fst (evo_step s op)) = Some t'
-             /\ t_cols t' = class_cols (e_decl (fst (evo_step s op))).
-Theorem C14_evolution_refuted : ~ C14_evolution_full.
-Proof. exact evolution_refuted. Qed.
+(* full strength would add: the declared indexes are still there.  Still open: *)
 (* and the declared indexes do not survive delColumn on sqlite *)
 Theorem C14_evolution_index_refuted :
-  exists s op, evo_wf s /\ op_ok op = true
+  exists s op, evo_wf s /\ op_ok (e_decl s) op = true
     /\ existsb (fun ix => str_eqb (snd ix) (table_of (e_decl s))) (db_indexes (e_db s)) = true
     /\ d_indexes (e_decl (fst (evo_step s op))) <> []
     /\ db_indexes (e_db (fst (evo_step s op))) = [].
 Proof. exact evolution_index_refuted. Qed.
-(* sqlite: an enum value with a backslash puts E'..' into the CHECK list: a syntax error *)
-Theorem C14_sqlite_enum_refuted :
-  exists dc toks, valid Sqlite dc = true /\ create_table Sqlite no_caps dc = Some toks
-                  /\ word_then_literal toks = true /\ sqlite_accepts dc = false.
-Proof. exact sqlite_enum_refuted. Qed.
+(* enum values: for sqlite, sybase, mssql (and firebird) each value is ONE string literal token
+   rendered by the dialect's own (ANSI) converter, and an ANSI lexer reads the value back from it --
+   any value, backslashes, quotes and control characters included *)
+Theorem C14_enum_literal : forall d s, In d [Sqlite; Sybase; Mssql; Firebird] ->
+  exists body, lit_toks d (Some s) = [Lit body] /\ unquote_ansi body = Some s.
+Proof. exact (fun d s H => enum_literal_ansi d s (enum_conv_ansi d H)). Qed.
 
 (* ================================================================= Tie A: tables re-extracted from the source *)
 Theorem C14_gen_tables : gen_tables_match = true.
@@ -193,18 +195,28 @@ Example C14_example_index :
                      with Some t => read_index t | None => None end)
   = Some [s2l "first_name"; s2l "other_id"].
 Proof. vm_compute. reflexivity. Qed.
+Definition ex_ja := {| j_kind := JRelated; j_other_class := s2l "VcBb"; j_other_table := s2l "vc_bb"; j_inter := None;
+       j_joincol := None; j_othercol := None; j_create := true; j_other_creates := [s2l "vc_aa_vc_bb"] |}.
+Definition ex_jb := {| j_kind := JRelated; j_other_class := s2l "VcAa"; j_other_table := s2l "vc_aa"; j_inter := None;
+       j_joincol := None; j_othercol := None; j_create := true; j_other_creates := [s2l "vc_aa_vc_bb"] |}.
+Definition with_joins (dc : decl) (js : list joindecl) : decl :=
+  {| d_class := d_class dc; d_table := d_table dc; d_idname := d_idname dc; d_idtype := d_idtype dc;
+     d_idsize := d_idsize dc; d_style := d_style dc; d_cols := d_cols dc; d_indexes := d_indexes dc; d_joins := js |}.
 Example C14_mirrored_nonvacuous :
   exists a b ja jb, d_class a <> d_class b /\ mirrored a b ja jb.
 Proof.
-  exists (mkdecl "VcAa" []), (mkdecl "VcBb" []),
+  exists (with_joins (mkdecl "VcAa" []) [ex_ja]), (with_joins (mkdecl "VcBb" []) [ex_jb]),
     {| j_kind := JRelated; j_other_class := s2l "VcBb"; j_other_table := s2l "vc_bb"; j_inter := None;
-       j_joincol := None; j_othercol := None; j_create := true |},
+       j_joincol := None; j_othercol := None; j_create := true; j_other_creates := [s2l "vc_aa_vc_bb"] |},
     {| j_kind := JRelated; j_other_class := s2l "VcAa"; j_other_table := s2l "vc_aa"; j_inter := None;
-       j_joincol := None; j_othercol := None; j_create := true |}.
-  split; [vm_compute; discriminate|]. repeat split; vm_compute; reflexivity.
+       j_joincol := None; j_othercol := None; j_create := true; j_other_creates := [s2l "vc_aa_vc_bb"] |}.
+  split; [vm_compute; discriminate|]. repeat split; try (left; reflexivity); vm_compute; reflexivity.
 Qed.
-Example C14_one_sided_nonvacuous : one_sided join_a join_b (hd {| j_kind := JMultiple; j_other_class := []; j_other_table := []; j_inter := None; j_joincol := None; j_othercol := None; j_create := false |} (d_joins join_b)).
-Proof. repeat split; vm_compute; reflexivity. Qed.
+Example C14_one_sided_nonvacuous : exists jb, one_sided join_a join_b jb.
+Proof. eexists. repeat split; try (left; reflexivity); vm_compute; reflexivity. Qed.
+Example C14_enum_literal_example :
+  lit_toks Sqlite (Some [99; 92; 39; 100]) = [Lit [39; 99; 92; 39; 39; 100; 39]].
+Proof. vm_compute. reflexivity. Qed.
 Example C14_style_examples :
   map (fun s => (style_dom (s2l s), str_eqb (underToMixed (mixedToUnder (s2l s))) (s2l s)))
       ["firstName"; "fooBarID"; "aBCd"; "zip9Code"; "XMLFile"; "fooId"; "a_1"; "Foo"; "ID"; "myURLPath"]
@@ -212,7 +224,7 @@ Example C14_style_examples :
      (false, false); (false, false); (false, false); (false, false)].
 Proof. vm_compute. reflexivity. Qed.
 Example C14_evolution_nonvacuous :
-  evo_wf w_evo_state /\ forallb op_ok [EAdd (mkcol "c" (KInt IInt None false false) false None false None); EDel (s2l "b")] = true
+  evo_wf w_evo_state /\ ops_ok w_evo_state [EAdd (mkcol "c" (KInt IInt None false false) false None false None); EDel (s2l "b")] = true
   /\ kept (s2l "a") w_evo_state [EAdd (mkcol "c" (KInt IInt None false false) false None false None); EDel (s2l "b")].
 Proof. split; [exact w_evo_wf|]. split; [vm_compute; reflexivity|]. vm_compute. repeat split; auto. Qed.
 Example C14_idempotent_example :
@@ -242,12 +254,12 @@ Print Assumptions C14_fk_action_maxdb_refuted.
 Print Assumptions C14_index.
 Print Assumptions C14_join_table_once.
 Print Assumptions C14_join_table_once_count.
-Print Assumptions C14_join_one_sided_refuted.
+Print Assumptions C14_join_one_sided.
+Print Assumptions C14_join_one_sided_count.
 Print Assumptions C14_style_roundtrip.
 Print Assumptions C14_idempotent_create.
 Print Assumptions C14_idempotent_drop.
 Print Assumptions C14_evolution_inv.
-Print Assumptions C14_evolution_refuted.
 Print Assumptions C14_evolution_index_refuted.
-Print Assumptions C14_sqlite_enum_refuted.
+Print Assumptions C14_enum_literal.
 Print Assumptions C14_gen_tables.
